@@ -282,7 +282,15 @@ def widen(rng, cfg, o, iv):
     if rng.random() >= cfg.wide:
         return iv
     a = rng.choice([0, 0, 0, 1, 2, 10, 70])
-    return (a, a + rng.choice([32, 33, 40, 47, 48, 49, 50, 63, 64, 65, 80, 100, 127, 128, 200]))
+    return (a, a + wide_width(rng))
+
+
+def wide_width(rng):
+    """Width of a wide window: the powers of two and their neighbours (where an implementation would put a threshold
+    between its short-window and its long-window code), and anything in between."""
+    if rng.random() < 0.3:
+        return rng.randint(13, 200)
+    return rng.choice([15, 16, 17, 18, 20, 24, 31, 32, 33, 40, 47, 48, 49, 50, 63, 64, 65, 80, 100, 127, 128, 129, 200])
 
 
 def gen_term(rng, cfg, d, pool=None):
